@@ -25,6 +25,31 @@ Theorem C14_unsubscribe_ends :
 Proof. exact unsubscribe_ok_ends. Qed.
 Print Assumptions C14_unsubscribe_ends.
 
-(* NOT PROVED (carried by the per-run correspondence and the Go/Coq prefix oracle only):
-   C14_isolation_order -- what a channel received is a prefix of the payloads the server sent
-   for its id.  The invariant is stated in DESIGN.md section 6 (C14). *)
+(* isolation and order: in EVERY reachable state of EVERY schedule (any interleaving of API calls,
+   server frames, faults, receives), what the application received on a subscription's channel
+   is a prefix of the payloads the server sent for that subscription's id -- in the order sent,
+   each at most once, never another subscription's -- and the rest is accounted for: dropped
+   only after the subscription ended, held by the reader, or still queued *)
+From Verif Require Import Proofs.WsOrder.
+Theorem C14_received_is_a_prefix_of_sent :
+  forall s i e, reachable s -> get_sub s i = Some e ->
+  exists dropped,
+    s_sent e = s_delivered e ++ dropped ++ inflight i (reader s) ++ queued i (inbound s)
+    /\ (dropped <> [] -> s_flag e = true \/ s_present e = false).
+Proof. exact received_is_a_prefix_of_sent. Qed.
+Print Assumptions C14_received_is_a_prefix_of_sent.
+
+(* while the subscription is alive nothing is lost *)
+Theorem C14_nothing_lost_while_alive :
+  forall s i e, reachable s -> get_sub s i = Some e -> s_flag e = false -> s_present e = true ->
+  s_sent e = s_delivered e ++ inflight i (reader s) ++ queued i (inbound s).
+Proof. exact nothing_lost_while_alive. Qed.
+Print Assumptions C14_nothing_lost_while_alive.
+
+Theorem C14_witness_delivery :
+  match get_sub (run w_run) 0 with
+  | Some e => s_delivered e = [7%N] /\ s_sent e = [7%N; 8%N] /\ queued 0 (inbound (run w_run)) = [8%N]
+  | None => False
+  end.
+Proof. exact w_run_delivers. Qed.
+Print Assumptions C14_witness_delivery.
